@@ -482,6 +482,18 @@ pub fn stream_cases() -> Vec<StreamCase> {
             false,
         )
     });
+    // the same with a helper that ignores SIGINT and never ends by itself: it is killed after the
+    // grace period (the process group outlives its reaped leader), the stream is closed
+    v.push(StreamCase {
+        stop_timeout: true,
+        ..c(
+            "time-limit-after-exit-helper-ignores-sigint",
+            "printf a; (trap '' INT; while kill -0 $$ 2>/dev/null; do sleep 0.02; done; touch ready; while :; do sleep 0.05; done) & exit 0",
+            "a",
+            "",
+            false,
+        )
+    });
     v
 }
 
